@@ -117,3 +117,49 @@ def split_trace(events, k):
                 e["c"] = line
             parts[tgt].append(e)
     return parts
+
+
+def tlc_corpora_to_scenarios(behs, rnd, per_corpus, name, with_shards=False, ns=(1, 2, 3)):
+    """TLC behaviours [objs, q] (SearchGen / MergeGen) -> harness scenarios: one per distinct corpus with a
+    sample of its queries. Unavailable objects become garbage-marked / expired / tombstoned in turn."""
+    import json
+    by = {}
+    for b in behs:
+        by.setdefault(json.dumps(b["objs"], sort_keys=True), []).append(b["q"])
+    out = []
+    for ci, (key, qs) in enumerate(sorted(by.items())):
+        objs = json.loads(key)
+        sobjs = []
+        nxt = max(o["id"] for o in objs) + 1
+        for o in objs:
+            so = dict(id=o["id"], owner=1 + o["id"] % 3, cs=1 + o["id"] % 5, epoch=0, size=0,
+                      attrs=[[a["k"], bstr(a["str"])] for a in o["attrs"]])
+            if with_shards:
+                so["shards"] = sorted(o["shards"])
+            if not o["avail"]:
+                how = (o["id"] + ci) % 3
+                if how == 0:
+                    so["fate"] = "gc"
+                elif how == 1:
+                    so["exp"] = 12           # put at epoch 10, queried at epoch 20
+                else:
+                    ts = dict(id=nxt, typ="TOMBSTONE", target=o["id"], owner=1, cs=1, epoch=0, size=0)
+                    if with_shards:
+                        ts["shards"] = sorted(o["shards"])
+                    sobjs.append(ts)
+                    nxt += 1
+            sobjs.append(so)
+        seen, uq = set(), []
+        for q in qs:
+            k = json.dumps(q, sort_keys=True)
+            if k not in seen:
+                seen.add(k)
+                uq.append(q)
+        rnd.shuffle(uq)
+        queries = [dict(fs=[dict(k=f["k"], op=f["op"], v=bstr(f["val"])) for f in q["fs"]], attrs=q["attrs"], ns=list(ns))
+                   for q in uq[:per_corpus]]
+        scn = dict(name="%s%d" % (name, ci), put_epoch=10, cur_epoch=20, pool_seed=2000 + ci, objs=sobjs, queries=queries)
+        if with_shards:
+            scn["nshards"] = 2
+        out.append(scn)
+    return out
